@@ -209,7 +209,7 @@ class ExprMixin(object):
 
     def ex_List(self, e, st):
         if not e.elts:
-            return [(st, V(EMPTY_LIST, None))]
+            return [(st, self._empty("list"))]
         return [(st1, V(STATIC, None, vals)) for st1, vals in self.ev_list(e.elts, st)]
 
     def ex_Set(self, e, st):
@@ -223,7 +223,7 @@ class ExprMixin(object):
 
     def ex_Dict(self, e, st):
         if not e.keys:
-            return [(st, V(EMPTY_DICT, None))]
+            return [(st, self._empty("dict"))]
         res = []
         for st1, ks in self.ev_list(e.keys, st):
             for st2, vs in self.ev_list(e.values, st1):
@@ -500,7 +500,11 @@ class ExprMixin(object):
         st = st.copy()
         st.assume(core.llen(r) == core.llen(a) + core.llen(b),
                   core.forall_int(0, core.llen(a), lambda j: z3.Select(core.larr(r), j) == z3.Select(core.larr(a), j)),
-                  core.forall_int(0, core.llen(b), lambda j: z3.Select(core.larr(r), core.llen(a) + j) == z3.Select(core.larr(b), j)))
+                  core.forall_int(core.llen(a), core.llen(a) + core.llen(b),
+                                  lambda k: z3.Select(core.larr(r), k) == z3.Select(core.larr(b), k - core.llen(a))),
+                  # the same fact, triggered from the second operand's side
+                  core.forall_int(0, core.llen(b), lambda j: z3.Select(core.larr(b), j) == z3.Select(core.larr(r), core.llen(a) + j),
+                                  pats=lambda j: [z3.Select(core.larr(b), j)]))
         return (st, r)
 
     # -- subscripts -----------------------------------------------------------------------------------
@@ -509,8 +513,8 @@ class ExprMixin(object):
         s = z3.simplify(i)
         if z3.is_int_value(s) and s.as_long() < 0:
             return core.llen(c) + i
-        if z3.is_int_value(s):
-            return i
+        if z3.is_int_value(s) or self.in_spec:
+            return i        # in specifications symbolic indices are taken as non-negative positions
         return z3.If(i < 0, core.llen(c) + i, i)
 
     def ex_Subscript(self, e, st):
@@ -633,6 +637,9 @@ class ExprMixin(object):
         if len(e.generators) != 1:
             raise OutsideSubset("nested comprehension generators")
         g = e.generators[0]
+        keyed = self._keyed_comprehension(e, g, st, kind)
+        if keyed is not None:
+            return keyed
         res = []
         for st1, seq in self.ev_iter(g.iter, st):
             if seq.ty is STATIC:
@@ -641,6 +648,76 @@ class ExprMixin(object):
                     continue
                 seq = self.adapt(seq, List(seq.items[0].ty))
             res.append(self._comp(e, g, seq, st1, kind))
+        return res
+
+    def _keyed_comprehension(self, e, g, st, kind):
+        """Comprehension over `m.items()` / a dict / a set whose result is keyed by the iterated key itself:
+        characterised per key (no positions, no order)."""
+        it = g.iter
+        src_node, mode = None, None
+        if isinstance(it, ast.Call) and isinstance(it.func, ast.Attribute) and it.func.attr == "items" and not it.args \
+                and isinstance(g.target, ast.Tuple) and len(g.target.elts) == 2 and all(isinstance(t, ast.Name) for t in g.target.elts):
+            src_node, mode, keyname = it.func.value, "items", g.target.elts[0].id
+        elif isinstance(g.target, ast.Name):
+            src_node, mode, keyname = it, "keys", g.target.id
+        else:
+            return None
+        if kind == "dict":
+            if not (isinstance(e.key, ast.Name) and e.key.id == keyname):
+                return None
+        elif kind == "set":
+            if not (isinstance(e.elt, ast.Name) and e.elt.id == keyname):
+                return None
+        else:
+            return None
+        res = []
+        for st1, src in self.ev(src_node, st):
+            if mode == "items" and not isinstance(src.ty, Map):
+                return None
+            if mode == "keys" and not isinstance(src.ty, (Map, Set)):
+                return None
+            dom = core.mdom(src) if isinstance(src.ty, Map) else src
+            kty = dom.ty.elem
+
+            def at(k, st1=st1, src=src):
+                s2 = st1.copy()
+                s2.written = None
+                s2.env[keyname] = V(kty, k)
+                if mode == "items":
+                    s2.env[g.target.elts[1].id] = core.mget(src, V(kty, k))
+                self.spec_depth += 1
+                n0 = len(self.spec_defs)
+                try:
+                    cond = z3.And([truthy(self.ev1(c, s2)) for c in g.ifs] or [z3.BoolVal(True)])
+                    val = self.ev1(e.value, s2) if kind == "dict" else None
+                    self.no_defs_under_binder(n0)
+                finally:
+                    self.spec_depth -= 1
+                return cond, val
+            if kind == "set":
+                res.append((st1, core.svirt(kty, lambda k, dom=dom, at=at: z3.And(core.smem_t(dom, k), at(k)[0]))))
+                continue
+            _, proto = at(z3.Const("comp!kprobe_" + core._mangle(kty.key), CTX.sort(kty)))
+            vty = proto.ty
+            if vty in (EMPTY_SET, EMPTY_LIST, EMPTY_DICT):
+                proto = self._empty({EMPTY_SET: "set", EMPTY_LIST: "list", EMPTY_DICT: "dict"}[vty])
+                vty = proto.ty
+                if vty in (EMPTY_SET, EMPTY_LIST, EMPTY_DICT):
+                    raise OutsideSubset("dict comprehension with untyped empty values (declare `empties` in the sidecar)")
+            r = fresh(Map(kty, vty), "dcomp")
+            st2 = st1.copy()
+
+            def val_eq(k, at=at, vty=vty, r=r):
+                v = at(k)[1]
+                if v.ty in (EMPTY_SET, EMPTY_LIST, EMPTY_DICT):
+                    v = self._empty({EMPTY_SET: "set", EMPTY_LIST: "list", EMPTY_DICT: "dict"}[v.ty])
+                cell = z3.Select(core.mval(r), k)
+                if isinstance(v.ty, Set) and core.is_virt(v):
+                    return core.forall_ty(v.ty.elem, lambda x: z3.Select(cell, x) == core.smem_t(v, x))
+                return core.eq_t(vty, cell, self._tpk(v, vty).t)
+            st2.assume(core.forall_ty(kty, lambda k: core.smem_t(core.mdom(r), k) == z3.And(core.smem_t(dom, k), at(k)[0])),
+                       core.forall_ty(kty, lambda k: z3.Implies(z3.And(core.smem_t(dom, k), at(k)[0]), val_eq(k))))
+            res.append((st2, r))
         return res
 
     def _bind_elem(self, target, elem, st):
